@@ -212,6 +212,14 @@ def large_count_cases(chk):
     out.append(("D2", 2, [2, 2, 100, 0, 0, [1, 2], [[cell, []], [[], cell[:257]]]]))
     for k, f, v in out:
         chk.count("large counts: " + k)
+    # items whose every field is zero / empty, between ordinary ones (a hub slot nobody plugged a camera into, an event nobody
+    # named): their records consist of nothing but zero bytes
+    out.append(("OS", 1, [3, [], [[1, [], [0x61], [], [0x62], [[0, 0], [640, 480]]], [0, [], [], [], [], [[0, 0], [0, 0]]],
+                                  [2, [], [0x63], [], [0x64], [[0, 0], [640, 480]]]]]))
+    out.append(("EV", 1, [3, 0, [[[0x61], 1, 2, [0x3F800000, 0x40000000]], [[], 0, 0, []], [[0x62], 0, 1, [0x40400000]]]]))
+    out.append(("PC", 2, [3, [], [0, 1, 2], [[[0x61], [0x3F000000, 0x3F000000], [0x3F800000] * 12, []], [[], [0, 0], [0] * 12, []],
+                                             [[0x62], [0x3F000000, 0x3F000000], [0x40000000] * 12, []]]]))
+    chk.count("blocks with an all-zero item between ordinary ones", 3)
     # counts that coincide with a constant of the format: the EMG sample count is stored with a bias of 49 (49 samples are
     # stored as 0, 48 as -1), records are 256 / 32 / 288 / 64 bytes wide, a camera record has 70 coefficients
     for nfr in (48, 49, 50, 64, 70, 255, 256, 257, 288):
@@ -276,9 +284,15 @@ def threshold_cases(chk, kinds=None):
         n2 = 2 ** 17 + 9000
         out.append(("EM", 1, [1, 1000, 0, n2, [0], [[[0x65], scal(n2, [(0, 3), (2 ** 17 - 1, 2 ** 17 + 1)])]]]))
         out.append(("D3", 2, [n2, 100, 0, 1, z3, z9, z3, 0, [], [[[0x61], vec(n2, 3, [(0, 5)])]]]))
+    # runs of EXACTLY 2^18 samples (what a writer that works in slices of 2^18 sees when the last slice is a whole one), with a
+    # second signal stored behind: a gap-free recording of 2^18 samples, and a run [100, 100 + 2^18) inside 300 000
+    if chk.tier != "quick" or getattr(chk, "pid", "") in ("C01", "C02"):
+        q = 2 ** 18
+        out.append(("EM", 1, [2, 1000, 0, q, [0, 1], [[[0x61], scal(q, [])], [[0x62], scal(q, [(5, 9)])]]]))
+        out.append(("EM", 1, [2, 1000, 0, 300000, [3, 4], [[[0x63], scal(300000, [(0, 100), (100 + q, 300000)])], [[0x64], scal(300000, [])]]]))
     out = [c for c in out if kinds is None or c[0] in kinds]
     for k, f, v in out:
-        chk.count("sizes across 2^13 / 2^16: " + k)
+        chk.count("sizes across 2^13 / 2^16 / 2^18: " + k)
     return out
 
 
@@ -428,6 +442,11 @@ def check_layouts(chk, pid, n):
         z3 = [0, 0, 0]
         for fmt in (1, 2):
             cases.append(("D3", fmt, [nfr, 100, 0, 1, z3, rot, z3, 0, [0, [], []] if fmt == 1 else [], [[[0x61], fr3]]], lay))
+    # EMG signals with several gaps, in every layout (a column vector cut out of a samples x channels matrix, a masked array, ...)
+    for lay in blocks.LAYOUTS:
+        ns = 40 + rng.randrange(30)
+        sig = lambda gaps: [[] if any(a <= i < b for a, b in gaps) else blocks.rf32(rng) for i in range(ns)]
+        cases.append(("EM", 1, [2, 1000, 0, ns, [4, 9], [[[0x61], sig([(0, 1), (5, 7), (20, 29)])], [[0x62], sig([(ns - 3, ns)])]]], lay))
     mres = model_eval([(k, f, v) for k, f, v, lay in cases], want=("wfb", "enc", "size"))
     for (kind, fmt, v, lay), m in zip(cases, mres):
         chk.count("array layout: " + lay)
